@@ -25,3 +25,41 @@ package heco
 //@   -- accepting marks exactly that (source chain, id) as done; nothing else in storage changes between check and mark
 //@   ensures[c20-marked] err == nil && r0 != nil && true ==> post[doneKeyB(id, src)] != None
 //@   ensures[c20-onlymarker] err == nil && r0 != nil && true ==> post == upd(pre, doneKeyB(id, src), post[doneKeyB(id, src)])
+
+// ---- C23: a deposit is accepted exactly on a confirmed canonical block whose state proves keccak(message) ----
+//@ func verifyMerkleProof
+//@   property C23
+//@   mode abstract
+//@   modifies nothing
+//@   ghost var addrOK bool = false
+//@   ghost var acctOK bool = false
+//@   ghost var gstorage [32]byte
+//@   set after "if !bytes.Equal(addr, contractAddr)" : addrOK := true
+//@   set after "if !bytes.Equal(acctrlp, acctVal)" : acctOK := true
+//@   set after "storageHash := ecommon.HexToHash(scom.Replace0x(hecoProof.StorageHash))" : gstorage := storageHash
+//@   callsite[c23-account-root] VerifyProof#1 requires arg0 == blockData.Root && addrOK
+//@   callsite[c23-storage-root] VerifyProof#2 requires arg0 == gstorage && acctOK
+//@   callsite[c23-account-value] EncodeToBytes#1 requires arg0 == acct && acct.Storage == gstorage
+//@   ensures[c23-proved] r1 == nil ==> addrOK && acctOK
+
+//@ func checkProofResult
+//@   property C23
+//@   mode abstract
+//@   modifies nothing
+
+//@ func verifyFromHecoTx
+//@   property C23
+//@   mode abstract
+//@   requires native != nil && sideChain != nil
+//@   modifies nothing
+//@   ghost var confirmed bool = false
+//@   ghost var proven bool = false
+//@   ghost var matches bool = false
+//@   set after "if cheight32 < height || cheight32-height < uint32(sideChain.BlocksToWait-1)" : confirmed := cheight32 >= height && cheight32-height >= uint32(sideChain.BlocksToWait-1)
+//@   set after "proofResult, err := verifyMerkleProof(hecoProof, headerWithSum.Header, sideChain.CCMCAddress)" : proven := err == nil
+//@   set after "if !checkProofResult(proofResult, extra)" : matches := true
+//@   callsite[c23-canonical] GetCanonicalHeader#1 requires arg1 == fromChainID && arg2 == uint64(height) && confirmed
+//@   callsite[c23-proof-against-it] verifyMerkleProof#1 requires arg2 == sideChain.CCMCAddress
+//@   callsite[c23-value-is-message-hash] checkProofResult#1 requires arg0 == proofResult && arg1 == extra && proven && proofResult != nil
+//@   callsite[c23-decodes-submitted] NewZeroCopySource#1 requires arg0 == extra && matches
+//@   ensures[c23-accepted] err == nil ==> param != nil && confirmed && proven && matches
